@@ -332,6 +332,22 @@ def run_instance(job):
             try:
                 I.call_function(lem.fn, [], args)
                 outcome = ("return", None)
+            except Unsupported as u:
+                # a loop that could not be unrolled to its end and has no loop rule: termination is not proved
+                # (checker limit, exit 3) - unless an input of this very path makes the real code run without
+                # end: that replay is a refutation of termination and stands on its own
+                if "loop needs an invariant" not in u.msg or path.fp_pc:
+                    raise
+                t1 = time.time()
+                if path.check(timeout_ms=cfgt["goal_timeout_ms"]) != z3.sat:
+                    raise
+                cargs = concretize()
+                native = _native_run(lem, cargs)
+                if native[0] != "hang":
+                    raise
+                record("termination", f"loop@{getattr(u, 'where', None) or '?'}", "refuted", time.time() - t1, "loop unrolled beyond max_unroll; the real code does not return on this path's input", {k: _safe_repr(x) for k, x in cargs.items()}, native)
+                vcs[-1]["_pickle"] = _pickle_args(cargs)
+                outcome = ("hang", None)
             except PyRaise as pr:
                 outcome = ("raise", pr.exc.cls.__name__)
                 t1 = time.time()
@@ -601,7 +617,8 @@ def summarize(prop, tier, results, wall, findings, mutations, quiet=False):
                 code = 3
             lines.append(f"ERROR vacuous lemma instance {r['lemma']}[{r['instance']}]: no path reaches the end")
     replay_files = []
-    if refuted and code in (0,):
+    # a refutation the real code confirms is a violation even when other paths fell outside the subset
+    if refuted and (code == 0 or (code == 3 and any(v["native"] is not None and v["native"][0] in ("assert", "raise", "hang") for _, v in refuted))):
         code = 1
     if refuted:
         os.makedirs(os.path.join(VERIF, "replays", prop), exist_ok=True)
